@@ -94,7 +94,7 @@ def gen_double(rng: random.Random) -> tuple[str, float]:
 
 
 def corr_mod(ck: Ck) -> None:
-    n = ck.budget(1500, 20000)
+    n = ck.budget(1500, 8000)
     cases = []
     for i in range(n):
         kind, x = ('special', SPECIAL[i]) if i < len(SPECIAL) else gen_double(ck.rng)
@@ -158,7 +158,7 @@ def gen_fmt_double(rng: random.Random) -> tuple[str, float]:
 
 def corr_format(ck: Ck) -> None:
     from srctools.math import format_float
-    n = ck.budget(1200, 15000)
+    n = ck.budget(1200, 6000)
     cases = []
     for i in range(n):
         kind, x = ('special', FMT_SPECIAL[i]) if i < len(FMT_SPECIAL) else gen_fmt_double(ck.rng)
@@ -207,7 +207,7 @@ def circ(a: float, b: float) -> float:
 
 def search_text(ck: Ck) -> None:
     from srctools.math import Angle, FrozenAngle, FrozenVec, Vec, format_float, parse_vec_str
-    n = ck.budget(2500, 40000)
+    n = ck.budget(2500, 20000)
     found: dict[str, tuple] = {}
     for i in range(n):
         kind, x = ('special', FMT_SPECIAL[i]) if i < len(FMT_SPECIAL) else gen_fmt_double(ck.rng)
@@ -609,7 +609,7 @@ def shrink(hist, pred):
 
 
 def search_histories(ck: Ck) -> list[dict]:
-    n = ck.budget(1200, 20000)
+    n = ck.budget(1200, 8000)
     found: dict[str, tuple] = {}
     all_frames: list[dict] = []
     for i in range(n):
@@ -724,6 +724,33 @@ def search_to_angle(ck: Ck) -> None:
         ck.violation(key, f'{route}{tuple(v)!r} gives (pitch, yaw, roll) = {vals!r}', {'route': route, 'values': [x.hex() for x in v]})
 
 
+def fix_axiom_lists(ck: Ck, props_file: str = 'Props/C05.v') -> None:
+    """Ck.theorems() parses only axioms printed as `name : type` on one line; the Reals axioms are printed with the
+    type on the following line.  Re-run Print Assumptions and record every axiom name (helper local to this check)."""
+    from harness.common import ROCQ
+    names = re.findall(r'^\s*(?:Theorem|Lemma|Corollary)\s+([A-Za-z0-9_\']+)', (ROCQ / props_file).read_text(), re.M)
+    body = 'Require Import SV.Props.C05.\n' + ''.join(f'Print Assumptions {n}.\n' for n in names)
+    rc, out = ck.coq_scratch(body, 'assumptions_full')
+    if rc != 0:
+        return
+    blocks: list[list[str]] = []
+    for line in out.splitlines():
+        if line.startswith('Closed under the global context'):
+            blocks.append([])
+        elif line.startswith('Axioms:'):
+            blocks.append([])
+        elif blocks and line and not line[0].isspace():
+            m = re.match(r"([A-Za-z_][A-Za-z0-9_.']*)", line)
+            if m:
+                blocks[-1].append(m.group(1))
+    if len(blocks) == len(names):
+        for n, b in zip(names, blocks):
+            ck.axioms[n] = b
+            for o in ck.obligations:
+                if o['name'] == f'theorem:{n}':
+                    o['detail'] = 'Qed; axioms: ' + ('none (closed under the global context)' if not b else ', '.join(b))
+
+
 # ------------------------------------------------------------------------------------------------ main
 def run(ck: Ck) -> None:
     ck.rule = ('mod360: doubles from all binades / around multiples of 360 / subnormals / tiny negatives, non-trivial = the modulo changed '
@@ -741,8 +768,9 @@ def run(ck: Ck) -> None:
     built = ok_t and ck.build(['Gen/AngleSites_gen.vo', 'Props/C05.vo'])
     if built:
         ck.theorems('Props/C05.v')
+        fix_axiom_lists(ck)
         empty = lambda e: f'match {e} with nil => true | _ => false end'
-        ck.instance_obligations(IMPORTS, {
+        res = ck.instance_obligations(IMPORTS, {
             'all_angle_store_sites_safe': 'all_sites_safe angle_sites',
             'no_single_modulo_store': empty('sites_of_kind is_single angle_sites'),
             'no_unclassified_angle_store': empty('sites_of_kind is_other angle_sites'),
@@ -753,6 +781,8 @@ def run(ck: Ck) -> None:
             'mutation_census_ok_except_known_matmul': 'table_ok mut_events carve_matmul',
             'no_write_through_unknown_or_aliased_object': 'forallb (fun e : mut_event => match snd (fst e) with Unknown | MaybeAlias | Param => helper (snd (fst (fst e))) | _ => true end) mut_events',
         })
+        if not all(res.values()):      # a premise of the theorems no longer holds for today's source: escalate the search
+            ck.tie_broken.append('instance obligations failed: ' + ', '.join(k for k, ok in res.items() if not ok))
         v = ck.coq_eval(IMPORTS, ['table_ok mut_events no_carve', 'bad_events no_carve mut_events'], name='nocarve', preamble='Import ListNotations.')
         ck.extra['mutation_census_ok_without_carve_out'] = v
         v = ck.coq_eval(IMPORTS, ['neg_zero_fix format_float_cfg'], name='negzero')
@@ -766,6 +796,9 @@ def run(ck: Ck) -> None:
     search_text(ck)
     # Failed instance obligations are explained by the concrete input the search exhibits for them.
     keys = {v['key'] for v in ck.violations}
+    if any(k.startswith(('format-float-', 'vec-str-', 'angle-str-')) and not k.endswith('negative-zero') for k in keys) \
+            and any('format_float' in o['detail'] for o in ck.obligations if o['name'].startswith('translate:') and not o['ok']):
+        ck.explain('translate:')       # the translator failed closed on format_float and the search shows the broken output
     if 'angle-360-from-matrix-to-angle' in keys:
         ck.explain('instance:all_angle_store_sites_safe')
         ck.explain('instance:no_single_modulo_store')
